@@ -11,6 +11,7 @@ import (
 	"fmt"
 	"net"
 	"net/netip"
+	"strings"
 	"testing"
 	"time"
 
@@ -24,8 +25,9 @@ import (
 )
 
 var (
-	srvAddr  = netip.MustParseAddrPort("10.0.0.1:123")
-	clientIP = net.IPv4(10, 0, 0, 2)
+	srvAddr    = netip.MustParseAddrPort("10.0.0.1:123")
+	clientIP   = net.IPv4(10, 0, 0, 2)
+	clientZone = ""
 )
 
 type mut struct {
@@ -166,7 +168,7 @@ func program(r *mc.Run, interleaved bool, warm int, cat []mut) func(x *mc.X) {
 				defer cancel()
 				deadline := time.Now().Add(time.Second)
 				th := w.Go("client", func() {
-					_, _, err = client.MeasureClockOffsetIP(ctx, w.Log, c, &net.UDPAddr{IP: clientIP}, &net.UDPAddr{IP: net.IPv4(10, 0, 0, 1), Port: 123})
+					_, _, err = client.MeasureClockOffsetIP(ctx, w.Log, c, &net.UDPAddr{IP: clientIP, Zone: clientZone}, net.UDPAddrFromAddrPort(srvAddr))
 				})
 				scripted := false
 				for {
@@ -262,10 +264,36 @@ func TestCheck(t *testing.T) {
 			}
 			r.Explore(mc.Config{Name: fmt.Sprintf("scion/interleaved=%v", il), Bound: mc.Pick(r, 2, 3)}, programSCION(r, il, warm, cat))
 		}
+		// a link-local server reached through one interface: the zone is part of "the queried server"
+		func() {
+			sa, ci, cz := srvAddr, clientIP, clientZone
+			defer func() { srvAddr, clientIP, clientZone = sa, ci, cz }()
+			srvAddr = netip.MustParseAddrPort("[fe80::1%eth0]:123")
+			clientIP, clientZone = net.ParseIP("fe80::2"), "eth0"
+			zsrc := func(name, ap string) mut {
+				return mut{name, func(g []byte, _, _ ntp.Packet) ([]byte, netip.AddrPort) {
+					return append([]byte{}, g...), netip.MustParseAddrPort(ap)
+				}}
+			}
+			zcat := []mut{cat[0], zsrc("src=other-zone", "[fe80::1%eth1]:123"), zsrc("src=no-zone", "[fe80::1]:123"), zsrc("src=other-host-same-zone", "[fe80::3%eth0]:123"),
+				zsrc("src=client-itself", "[fe80::2%eth0]:123"), zsrc("src=other-port", "[fe80::1%eth0]:124")}
+			for _, m := range cat {
+				if strings.HasPrefix(m.name, "origin=") || strings.HasPrefix(m.name, "stratum=") {
+					zcat = append(zcat, m)
+				}
+			}
+			for _, il := range []bool{false, true} {
+				warm := 0
+				if il {
+					warm = 1
+				}
+				r.Explore(mc.Config{Name: fmt.Sprintf("ip-zoned/interleaved=%v", il), Bound: -1}, program(r, il, warm, zcat))
+			}
+		}()
 		// NTS over IP against the real listener and key exchange
 		r.Explore(mc.Config{Name: "ip-nts", Bound: -1}, programNTS(r, cat))
 		r.Explore(mc.Config{Name: "scion-nts", Bound: -1}, programSCIONNTS(r, cat))
 		r.Extra["catalogue_size"] = len(cat)
-		r.Extra["rule"] = "real IPClient and real SCIONClient, plain and NTS-protected against the real listeners / key exchange (NTS adds: previous genuine response, flipped authenticator byte, NTS fields stripped, previous response under this header) and real SCIONClient (NTP-level catalogue x 13 SCION-level mutations: wrong source / destination ISD-AS or host, SCMP, other L4, UDP length beyond the datagram, ...), basic request (no history) and interleaved request (after one undisturbed call): every ordered pair of datagrams from a catalogue of the genuine response and its single-field mutations (all 256 first bytes, stratum, 9 origin values, tx/rx order incl. era wrap, 36 origin x transmit/receive combinations, lengths, 4 source addresses) is delivered before the genuine response; success must be justified by the acceptance predicate on the consumed datagram"
+		r.Extra["rule"] = "real IPClient and real SCIONClient, plain and NTS-protected against the real listeners / key exchange (NTS adds: previous genuine response, flipped authenticator byte, NTS fields stripped, previous response under this header) and real SCIONClient (NTP-level catalogue x 13 SCION-level mutations: wrong source / destination ISD-AS or host, SCMP, other L4, UDP length beyond the datagram, ...), basic request (no history) and interleaved request (after one undisturbed call): every ordered pair of datagrams from a catalogue of the genuine response and its single-field mutations (all 256 first bytes, stratum, 9 origin values, tx/rx order incl. era wrap, 36 origin x transmit/receive combinations, lengths, 4 source addresses; for a link-local IPv6 server reached through one interface also the same address in another zone / without zone / another host in the zone) is delivered before the genuine response; success must be justified by the acceptance predicate on the consumed datagram"
 	})
 }
